@@ -16,13 +16,14 @@ Section Proofs.
       create or destroy keys *)
   Hypothesis istate_set : forall i z, istate P (set_state P i z) = z.
   Hypothesis keys_set : forall i z, has_keys P (set_state P i z) = has_keys P i.
+  Hypothesis peer_spi_set : forall i z, ipeer_spi P (set_state P i z) = ipeer_spi P i.
 
   Notation sa := (sa P).
   Notation pmsg := (pmsg (B P)).
 
   (** every shell-owned field except those listed is untouched *)
   Definition same_identity (s s' : sa) : Prop :=
-    is_init P s' = is_init P s /\ my_spi P s' = my_spi P s /\ peer_spi P s' = peer_spi P s /\
+    is_init P s' = is_init P s /\ my_spi P s' = my_spi P s /\
     dpd_cfg P s' = dpd_cfg P s /\ rek_at P s' = rek_at P s /\ del_at P s' = del_at P s.
 
   (* ------------------------------------------------------------------ C08: request window *)
@@ -66,15 +67,15 @@ Section Proofs.
                     | HErr _ => set_state P (fst (handle_request P (inner P s) m)) ST_DELETED
                     end) /\
       d_body d = (match snd (handle_request P (inner P s) m) with HOk b => b | HErr b => b end) /\
-      d_hdr d = mk_hdr (spi_i P s) (spi_r P s) GEN_MAJOR GEN_MINOR (h_exch (p_hdr m)) true (is_init P s) (peer_id P s).
+      d_hdr d = mk_hdr (spi_i P s') (spi_r P s') GEN_MAJOR GEN_MINOR (h_exch (p_hdr m)) true (is_init P s) (peer_id P s).
   Proof.
     intros H1 H2. unfold process_request, req_is_retransmission, req_id_unexpected. rewrite H2.
     destruct (Z.eqb (h_id (p_hdr m)) (Z.sub (peer_id P s) 1)) eqn:E; [lia|].
     destruct (negb (Z.eqb (h_id (p_hdr m)) (peer_id P s))) eqn:E2; [lia|]. cbn [negb].
     destruct (handle_request P (inner P s) m) as [i' out] eqn:Hh. cbn [fst snd].
     destruct out as [b|b]; eexists; eexists; (split; [reflexivity|]);
-      unfold same_identity, stamp_response, spi_i, spi_r, with_state, with_inner; cbn;
-      repeat split; reflexivity.
+      unfold same_identity, stamp_response, spi_i, spi_r, peer_spi, with_state, with_inner; cbn;
+      rewrite ?peer_spi_set; repeat split; reflexivity.
   Qed.
 
   (* ------------------------------------------------------------------ C08: response window *)
